@@ -5,7 +5,7 @@ import OdxVerif.Proofs.CompReject2Described
     `Obj` — `A_INT32` (four encodings), `A_UINT32`, `A_FLOAT64`, `A_FLOAT32`, `A_BYTEFIELD`, `A_ASCIISTRING` (ISO-8859-1),
     `A_UTF8STRING`, `A_UNICODE2STRING` (UCS-2), BCD (packed / unpacked) — with or without PHYSICAL-DEFAULT-VALUE, at every
     nesting depth of structures (with or without BYTE-SIZE) ∘ static / dynamic-length / END-OF-PDU fields (items with or without
-    BYTE-SIZE) ∘ multiplexers, plus LEADING-LENGTH-INFO-TYPE leaves and (in last position, ended by the end of the PDU)
+    BYTE-SIZE) ∘ multiplexers, plus LEADING-LENGTH-INFO-TYPE leaves (over `A_BYTEFIELD` and the three string base types) and (in last position, ended by the end of the PDU)
     MIN-MAX-LENGTH-TYPE leaves over `A_BYTEFIELD` (class `DescribedP2`,
     `Proofs/CompReject2Described.lean`).  One rejection lemma covers all kinds: `Obj.rejectsW` (`Proofs/CompReject2Leaf.lean`).
 
@@ -383,6 +383,63 @@ example : ∃ cursor, decodeMessage none (PDescs.toParams lDesc) [0x2E, 3, 0xA1,
       rw [henc]; rfl
     have h4 : (encodeMessage none (PDescs.toParams lDesc) (lMk (.atom (.bytes [0xA1, 0xA2, 0xA3]))) none true).toOption
         = some ([0x2E, 3, 0xA1, 0xA2, 0xA3, 0x99], 0) := by decide +kernel
+    rw [h2] at h4
+    simp only [Option.some.injEq, Prod.mk.injEq] at h4
+    obtain ⟨hp, hw⟩ := h4
+    subst hp
+    cases hkvs
+    obtain ⟨cursor, hdec⟩ := hrt hw (fun h => by cases h)
+    exact ⟨cursor, hdec⟩
+
+/-! ## non-vacuity, LEADING-LENGTH-INFO-TYPE over the string base types
+    request = [ sid; a : A_ASCIISTRING, 3-bit prefix; u : A_UTF8STRING, 8-bit prefix; w : A_UNICODE2STRING, 8-bit prefix ] -/
+def sSh (n : String) (bt : BaseType) (bl : Nat) : LeadStrShape :=
+  { name := n, bytePos := none, bitPos := none, bt := bt, enc := none, hl := true, bitLen := bl }
+def sDesc2 : List PDesc :=
+  [PDesc.ofObjConst ⟨"sid", none, none, none, true, 8, .uint32⟩ (.int 0x2E), PDesc.ofLeadStr (sSh "a" .ascii 3),
+   PDesc.ofLeadStr (sSh "u" .utf8 8), PDesc.ofLeadStr (sSh "w" .unicode2 8)]
+def sMk (a u w : List Nat) : PVal := .dict [("a", .atom (.str a)), ("u", .atom (.str u)), ("w", .atom (.str w))]
+
+theorem sDesc2_described : ∀ p ∈ sDesc2, DescribedP2 p := by
+  intro g hg
+  simp only [sDesc2, List.mem_cons, List.mem_nil_iff, or_false] at hg
+  rcases hg with rfl | rfl | rfl | rfl
+  · exact DescribedP2.const _ _ (by simp [Obj.ok, Obj.encOk, Obj.sizeOk]) (by simp [Obj.inRange])
+  · exact DescribedP2.leadStr _ ⟨by decide, by decide, Or.inl rfl⟩
+  · exact DescribedP2.leadStr _ ⟨by decide, by decide, Or.inr (Or.inl rfl)⟩
+  · exact DescribedP2.leadStr _ ⟨by decide, by decide, Or.inr (Or.inr rfl)⟩
+
+theorem sDesc2_names : PDescs.namesOk sDesc2 ∧ PDescs.eopLast sDesc2 := by
+  refine ⟨?_, ⟨rfl, rfl, rfl, trivial⟩⟩
+  simp [PDescs.namesOk, sDesc2, PDesc.name, Param.name, PDesc.ofObjConst, Obj.toConstParam, PDesc.ofLeadStr, LeadStrShape.leaf,
+    LeadLeaf.toParam, sSh]
+
+/-- accepted: "OK" (2 bytes), "€" (3 bytes of UTF-8), "Ω😀" (2 + 4 bytes of UTF-16) -/
+example : let p := sMk [0x4F, 0x4B] [0x20AC] [0x3A9, 0x1F600]
+    p.wfAtoms = true ∧ p.typedForP sDesc2 = true ∧ p.acceptedByP sDesc2 = true ∧
+    (encodeMessage none (PDescs.toParams sDesc2) p none true).toOption =
+      some ([0x2E, 2, 0x4F, 0x4B, 3, 0xE2, 0x82, 0xAC, 6, 0x03, 0xA9, 0xD8, 0x3D, 0xDE, 0x00], 0) := by decide +kernel
+/-- rejected with `EncodeError`: "Oé" for A_ASCIISTRING (3 bytes of UTF-8 measured, 2 bytes of ISO-8859-1 emplaced — the real code:
+    `EncodeError("The value 'Oé' is too short to be encoded using 24 bits")`), eight characters for a 3-bit prefix, a lone surrogate
+    for UTF-8 and for UTF-16, "Ā" for ISO-8859-1, bytes for a string -/
+example : [sMk [0x4F, 0xE9] [] [], sMk [1, 2, 3, 4, 5, 6, 7, 8] [] [], sMk [] [0xD800] [], sMk [] [] [0xD800], sMk [0x100] [] [],
+      .dict [("a", .atom (.bytes [0x41])), ("u", .atom (.str [])), ("w", .atom (.str []))]].all (fun p =>
+      p.wfAtoms && p.typedForP sDesc2 && p.acceptedByP sDesc2 == false && decide (p.needFor sDesc2 ≤ modelFuel) &&
+      errClass (encodeMessage none (PDescs.toParams sDesc2) p none true) == some .encode) = true := by decide +kernel
+/-- the theorem applies -/
+example : ∃ cursor, decodeMessage none (PDescs.toParams sDesc2)
+      [0x2E, 2, 0x4F, 0x4B, 3, 0xE2, 0x82, 0xAC, 6, 0x03, 0xA9, 0xD8, 0x3D, 0xDE, 0x00] true =
+    .ok (.dict (PDescs.complete sDesc2 [("a", .atom (.str [0x4F, 0x4B])), ("u", .atom (.str [0x20AC])), ("w", .atom (.str [0x3A9, 0x1F600]))]),
+      cursor) := by
+  rcases C04_nested sDesc2 sDesc2_described sDesc2_names.1 sDesc2_names.2 (sMk [0x4F, 0x4B] [0x20AC] [0x3A9, 0x1F600]) (by decide +kernel)
+    none (by decide +kernel) (by decide +kernel) with ⟨e, he, _⟩ | ⟨kvs, pdu, w, hkvs, _, henc, hrt⟩
+  · have : (encodeMessage none (PDescs.toParams sDesc2) (sMk [0x4F, 0x4B] [0x20AC] [0x3A9, 0x1F600]) none true).toOption = none := by
+      rw [he]; rfl
+    exact absurd this (by decide +kernel)
+  · have h2 : (encodeMessage none (PDescs.toParams sDesc2) (sMk [0x4F, 0x4B] [0x20AC] [0x3A9, 0x1F600]) none true).toOption
+        = some (pdu, w) := by rw [henc]; rfl
+    have h4 : (encodeMessage none (PDescs.toParams sDesc2) (sMk [0x4F, 0x4B] [0x20AC] [0x3A9, 0x1F600]) none true).toOption
+        = some ([0x2E, 2, 0x4F, 0x4B, 3, 0xE2, 0x82, 0xAC, 6, 0x03, 0xA9, 0xD8, 0x3D, 0xDE, 0x00], 0) := by decide +kernel
     rw [h2] at h4
     simp only [Option.some.injEq, Prod.mk.injEq] at h4
     obtain ⟨hp, hw⟩ := h4
